@@ -15,7 +15,7 @@ func init() {
 		ID:   "C20",
 		Rule: "one case = (packet of the C01 space, source: built through the API or decoded from its wire image, side that is mutated, one mutation); non-trivial = the packet has at least one of payload / CSRC / extension element",
 		Assumptions: []string{
-			"mutations: overwrite every payload byte; overwrite every CSRC entry; overwrite every byte of one extension value through the slice GetExtension returns; SetExtension of an existing id; SetExtension of a new id; DelExtension of the first / last id; overwrite of the decoded-from buffer; append within capacity to payload and CSRC",
+			"mutations: overwrite every payload byte; overwrite every CSRC entry; overwrite every byte of one extension value through the slice GetExtension returns; SetExtension of an existing id; SetExtension of a new id; DelExtension of the first / last id; overwrite of the decoded-from buffer; append within capacity to payload and CSRC; SetExtension of different new ids on both sides; each also from the start state in which every extension was deleted before cloning (empty list with spare capacity)",
 			"packet space: C01 reduced space (quick) / C01 quick space (thorough)",
 		},
 		Scenarios: []mc.Scenario{
@@ -44,8 +44,17 @@ func c20Run(c *mc.Ctx) {
 	}
 	fromWire := c.Bool()
 	mutateClone := c.Bool()
-	mut := c.Pick(10)
+	mut := c.Pick(11)
 	p, w := genPacket(c, level, fixedPresets[0])
+	// start state "extension list emptied but still allocated": delete every element first
+	if w.X && w.Is8285() && len(w.Elements()) > 0 && c.Bool() {
+		for _, e := range w.Elements() {
+			if err := p.DelExtension(e.ID); err != nil {
+				c.Failf("delextension-refused", "%s: DelExtension(%d): %v", describeWire(w), e.ID, err)
+			}
+		}
+		w.Items = nil
+	}
 	var wire []byte
 	if fromWire {
 		b, err := p.Marshal()
@@ -144,6 +153,27 @@ func c20Run(c *mc.Ctx) {
 		}
 		name = "overwrite the buffer the original was decoded from"
 		scribble(wire)
+	case 10:
+		// both sides add an extension of their own: neither may see the other's
+		if !w.X || !w.Is8285() || len(elems) > 2 {
+			return
+		}
+		name = "SetExtension(3) on one side, then SetExtension(4) on the other"
+		if err := victim.SetExtension(3, []byte{0xEE}); err != nil {
+			c.Failf("setextension-refused", "%s: SetExtension(3): %v", describeWire(w), err)
+		}
+		if err := other.SetExtension(4, []byte{0xDD}); err != nil {
+			c.Failf("setextension-refused", "%s: SetExtension(4): %v", describeWire(w), err)
+		}
+		if got := victim.GetExtension(3); !bytes.Equal(got, []byte{0xEE}) || victim.GetExtension(4) != nil {
+			c.Failf("shared-memory", "%s (decoded from wire: %v): after SetExtension(3) on one side and SetExtension(4) on the other, the first reports id 3 = %s, id 4 = %s, ids %v", describeWire(w), fromWire, hx(got), hx(victim.GetExtension(4)), victim.GetExtensionIDs())
+		}
+		if got := other.GetExtension(4); !bytes.Equal(got, []byte{0xDD}) || other.GetExtension(3) != nil {
+			c.Failf("shared-memory", "%s: the second side reports id 4 = %s, id 3 = %s", describeWire(w), hx(got), hx(other.GetExtension(3)))
+		}
+		c.NonTrivial()
+		c.Outcome("mut=10")
+		return
 	}
 	c.Ops(3)
 	if c.Verbose() {
